@@ -27,4 +27,6 @@ CASES = [
          old="    if exception is not None:\n        raise cast(Exception, exception)", new="    if exception is None:\n        pass\n    else:\n        raise cast(Exception, exception)")]),
     dict(expect="fire", desc="seed C41-r2/3: run() publishes done before storing the exception", names="T3-blocking-result", edits=[dict(file=RUN,
          old="        exception = error\n        done = True", new="        done = True\n        exception = error")]),
+    dict(expect="fire", desc="mutant: to_future leaves future_ctor_ unassigned when a constructor is given", names="W0-wellformed", edits=[dict(file="reactivex/operators/_tofuture.py",
+         old="        future_ctor_ = future_ctor\n", new="        pass\n")]),
 ]
